@@ -24,7 +24,18 @@ public:
     static status assign_thread_info(Token& token) {
         for (auto&& elem : thread_info_table_) {
             if (elem.gain_the_right()) {
-                elem.set_begin_epoch(epoch_management::get_epoch());
+                /**
+                 * Publish the begin epoch and make sure the global epoch did
+                 * not move in between: otherwise the epoch thread may have
+                 * computed the gc epoch while this slot still read 0 and this
+                 * session would run with a begin epoch older than gc epoch + 1.
+                 */
+                for (;;) {
+                    Epoch e = epoch_management::get_epoch();
+                    elem.set_begin_epoch(e);
+                    std::atomic_thread_fence(std::memory_order_seq_cst);
+                    if (e == epoch_management::get_epoch()) { break; }
+                }
                 token = &(elem);
                 return status::OK;
             }
